@@ -2736,7 +2736,16 @@ impl KotoVm {
             (Range(r), Number(n)) if r.start().is_some() => {
                 let start = r.start().unwrap();
                 let index = self.validate_index(n, r.size())?;
-                Number((start + index as i64).into())
+                // An open-ended range has no size to validate the index against,
+                // so the addition needs to be checked.
+                let result = match i64::try_from(index) {
+                    Ok(index) => start.checked_add(index),
+                    Err(_) => None,
+                };
+                let Some(result) = result else {
+                    return runtime_error!("index ({n}) is out of range");
+                };
+                Number(result.into())
             }
             (Object(o), index) => o.try_borrow()?.index(&index)?,
             (unexpected_value, unexpected_index) => {
